@@ -5,6 +5,7 @@ import os
 import time
 
 VERIF = os.path.dirname(os.path.dirname(os.path.dirname(os.path.abspath(__file__))))
+EVID = os.environ.get("VERIF_EVIDENCE", os.path.join(VERIF, "evidence"))
 
 
 class RuleCtx:
@@ -89,7 +90,7 @@ class Report:
             for e in json.load(open(kf_path)).get("findings", []):
                 if e.get("status") == "known" and e.get("property") == self.prop:
                     known[e["key"]] = e
-        viol_dir = os.path.join(VERIF, "evidence", "violations")
+        viol_dir = os.path.join(EVID, "violations")
         os.makedirs(viol_dir, exist_ok=True)
         # remove stale violation files of this property
         for f in os.listdir(viol_dir):
@@ -145,8 +146,8 @@ class Report:
         cov.update(self.extra)
         ev = {"property_id": self.prop, "tier": self.tier, "seed": self.seed, "level": self.level, "coverage": cov,
               "assumptions": self.assumptions, "wall_s": round(wall, 2), "violations": n_viol}
-        os.makedirs(os.path.join(VERIF, "evidence"), exist_ok=True)
-        json.dump(ev, open(os.path.join(VERIF, "evidence", self.prop + ".json"), "w"), indent=1)
+        os.makedirs(EVID, exist_ok=True)
+        json.dump(ev, open(os.path.join(EVID, self.prop + ".json"), "w"), indent=1)
         for ln in lines:
             print(ln)
         print("%s %s: %d obligations, %d discharged, %d violations, %d known findings, %.1fs" %
